@@ -28,6 +28,14 @@ pub struct Case {
     /// HTTP/3 (quiche client, real QUIC listener, real time); `h2` is then ignored
     #[serde(default)]
     pub h3: bool,
+    /// HTTP/1.1 CONNECT: the client sends its first payload bytes right behind the request head,
+    /// without waiting for the answer
+    #[serde(default)]
+    pub early_data: bool,
+    /// the early data leaves this long after the head (0 = together with it); generated around the
+    /// moment at which the endpoint gives its answer
+    #[serde(default)]
+    pub early_delay_ms: u32,
 }
 
 pub struct ResponseSuite;
@@ -392,6 +400,14 @@ pub fn request_of(c: &Case) -> Req {
     };
     let mut r = Req::connect(&c.authority, auth);
     r.method = c.method.clone();
+    r.early_payload = c.early_data;
+    r.early_delay_ms = c.early_delay_ms;
+    if c.early_data && c.early_delay_ms == 1 {
+        // more than the codec hands over at once: the rest waits in the transport while the
+        // request is being decided
+        r.payload = (0..70_000usize).map(|i| (i * 7 + (i >> 8)) as u8).collect();
+        r.early_delay_ms = 0;
+    }
     if c.method != "CONNECT" {
         // reserved authority with another method: absolute form names it as the host
         r.target = format!("http://{}/", c.authority);
@@ -495,8 +511,11 @@ impl Suite for ResponseSuite {
             outcome_strategy(),
             prop_oneof![4 => Just(false), 1 => Just(true)],
             prop_oneof![3 => Just(0u8), 1 => 1u8..=4],
+            prop_oneof![2 => Just(false), 1 => Just(true)],
+            // with the head, shortly after it, or at the instant the establishment timer fires
+            prop_oneof![3 => Just(0u32), 2 => 1u32..4, 3 => (ESTABLISHMENT_MS as u32 - 2)..(ESTABLISHMENT_MS as u32 + 3), 1 => Just(500u32)],
         )
-            .prop_map(|(h2, method, (kind, authority), creds_valid, outcome, mux_fails, mux_auth)| {
+            .prop_map(|(h2, method, (kind, authority), creds_valid, outcome, mux_fails, mux_auth, early_data, early_delay_ms)| {
                 let method = if kind == "reserved" { method } else { "CONNECT" };
                 Case {
                     h2,
@@ -508,6 +527,8 @@ impl Suite for ResponseSuite {
                     mux_fails,
                     mux_auth,
                     h3: false,
+                    early_data: early_data && !h2,
+                    early_delay_ms: if early_data && !h2 { early_delay_ms } else { 0 },
                 }
             })
             .boxed()
@@ -532,6 +553,9 @@ impl Suite for ResponseSuite {
         }
         if !c.creds_valid {
             v.push("invalid-credentials");
+        }
+        if c.early_data && failure {
+            v.push("early-data-before-a-failure-answer");
         }
         if c.mux_auth != 0 && c.creds_valid && c.method == "CONNECT" && (c.authority == "_udp2" || c.authority == "_icmp") {
             v.push("multiplexer-authentication-fails");
